@@ -473,6 +473,9 @@ func Encode(w io.Writer, file *File, arch binary.ByteOrder) error {
 	if err != nil {
 		return fmt.Errorf("encode failed: Header: %w", err)
 	}
+	if file.Header.Size == headerSizeCRC {
+		file.Header.CRC = le.Uint16(hdr[headerSizeNoCRC:headerSizeCRC])
+	}
 
 	// Calculate file CRC
 	crc := dyncrc16.New()
